@@ -148,10 +148,10 @@ def run(ctx):
     samples = []
 
     # ------------------------------------------------ 1. the real codec on generated rows
-    ncodec = 330 if quick else 6600
+    ncodec = 220 if quick else 6600
     cases = ctx.jsonl([hx, "-mode", "codec", "-seed", str(ctx.seed), "-n", str(ncodec)], timeout=600)
     ctx.log("codec: %d cases from the real generate/decodeLNT/Position" % len(cases))
-    budget = 6000 if quick else 180000   # cost units (numbers parsed + table entries / 8) evaluated inside Coq
+    budget = 4400 if quick else 180000   # cost units (numbers parsed + table entries / 8) evaluated inside Coq
     terms, refs, costs = [], [], []
     used = 0
     class_used = {}
@@ -185,12 +185,12 @@ def run(ctx):
     ncodec_terms = len(terms)
 
     # ------------------------------------------------ 2. generated failing programs
-    nprog = 190 if quick else 5700
-    nlnt = 12 if quick else 150
+    nprog = 150 if quick else 5700
+    nlnt = 8 if quick else 150
     progs = ctx.jsonl([hx, "-mode", "prog", "-seed", str(ctx.seed), "-n", str(nprog), "-lnt", str(nlnt)], timeout=800)
     ctx.log("prog: %d generated failing programs executed" % len(progs))
     nprob = 0
-    tbudget = 3000 if quick else 80000
+    tbudget = 2000 if quick else 80000
     tused = 0
     layouts = {}
     for p in progs:
@@ -247,7 +247,7 @@ def run(ctx):
     dist.update({"layout:" + k: v for k, v in layouts.items()})
 
     # ------------------------------------------------ 2b. histories known to the generator against the machine of Stack.v
-    ntrace = 150 if quick else 3000
+    ntrace = 100 if quick else 3000
     traces = ctx.jsonl([hx, "-mode", "trace", "-seed", str(ctx.seed), "-n", str(ntrace)], timeout=600)
     ntr = 0
     for t in traces:
@@ -262,7 +262,7 @@ def run(ctx):
             ctx.finding("trace:callstack-inside-builtin", "thread.CallStack() seen by a built-in differs from the active calls of the generated history", rep)
         if t["final"] != t["exp_final"]:
             ctx.finding("trace:final-callstack", "EvalError.CallStack differs from the active calls of the generated history at the failure", rep)
-        if ntr < (40 if quick else 1200):
+        if ntr < (30 if quick else 1200):
             ntr += 1
             evs = []
             for tag, a in t["events"]:
@@ -276,7 +276,7 @@ def run(ctx):
     # ------------------------------------------------ 3. model and specification inside Coq
     ctx.log("evaluating %d cases in Coq (%d codec, %d real function tables, %d histories; %d cost units)" % (len(terms), ncodec_terms, len(terms) - ncodec_terms - ntr, ntr, sum(costs)))
     bad_model, bad_spec = par_mismatches(ctx, "c16_cases", HEADER + CASEDEFS, terms, costs, ["model_ok", "spec_ok"],
-                                         per_shard=(2600 if quick else 12000), workers=(4 if quick else 8))
+                                         per_shard=(2000 if quick else 12000), workers=(4 if quick else 8))
     for i in bad_spec:
         c = refs[i]
         if c.get("kind") == "trace":
